@@ -20,7 +20,7 @@ func init() {
 			"(6) the SSTable list is sorted by recency at load (C01 rule); (7) WAL retention never collects the current log file and deletes by sequence only when MaxSeq < MinSequenceKeep. " +
 			"Added after blind round 4: the key range handed to the level-1 overlap test is the union of the selected files (decision table of one loop iteration: minimum and maximum updated independently); every sort.Slice comparator indexes the slice being sorted (no parallel key slice).",
 		NotDecided: "equality of merged views for all workloads (values); which selections a workload triggers; the interaction 'log file retired while its data is only in memory' (the code has no notion of flushed-up-to: remark, not verdict).",
-		Rules:      []func(*Ctx, *Reporter){ruleCompactSourceOrder, ruleMergePolicy, ruleCompactDecisionTable, ruleTombstoneFilterTable, ruleInputsOutliveOutputs, ruleOverlapsTable, ruleBuilderStrictOrder, ruleRecencyAtLoad, ruleRetention, ruleUnionRange, ruleSortKeysFromSortedSlice},
+		Rules:      []func(*Ctx, *Reporter){ruleCompactSourceOrder, ruleMergePolicy, ruleCompactDecisionTable, ruleTombstoneFilterTable, ruleInputsOutliveOutputs, ruleOverlapsTable, ruleBuilderStrictOrder, ruleRecencyAtLoad, ruleRetention, ruleUnionRange, ruleSortKeysFromSortedSlice, ruleExecutorGetsTracker},
 	})
 }
 
